@@ -231,11 +231,17 @@ impl MeCabOovPlugin {
                 }
                 llength -= 1;
             }
+            let mut prev_sublength = 0;
             for i in 1..=cinfo.length {
                 let sublength = input.char_distance(offset, i as usize);
                 if sublength > llength {
                     break;
                 }
+                // char_distance stops at the end of the text: the candidate was already created
+                if sublength == prev_sublength {
+                    break;
+                }
+                prev_sublength = sublength;
                 for oov in oovs {
                     nodes.push(self.get_oov_node(oov, offset, offset + sublength));
                     num_created += 1;
